@@ -243,9 +243,16 @@ def _check_recovery(ctx, run, model, train_df, R_true):
     subject = 'copulas.multivariate.gaussian.GaussianMultivariate.fit'
     R = model.correlation.to_numpy()
     d = R.shape[0]
+    if n < 1000:
+        return
     ctx.stats['recovery_checks'] += 1
     for a in range(d):
         for b in range(a + 1, d):
+            if abs(R_true[a, b]) > 0.9:
+                # on the atanh scale the plug-in transform's end-point effects blow up near
+                # |rho| = 1; "within sampling error" is gated for |rho| <= 0.9 only
+                ctx.probes['recovery_pair_skipped_abs_rho_above_0.9'] += 1
+                continue
             lim = 8.0 / math.sqrt(n - 3) + 0.02
             r_hat = float(np.clip(R[a, b], -0.999999, 0.999999))
             r_true = float(np.clip(R_true[a, b], -0.999999, 0.999999))
